@@ -269,7 +269,7 @@ static char * strip_dimension_units(char * original) {
 	result = my_strdup(original);
 
 	for (i = 0; result[i]; i++) {
-		result[i] = tolower(result[i]);
+		result[i] = tolower((unsigned char) result[i]);
 	}
 
 	// Trim anything other than digits
